@@ -420,15 +420,17 @@ Next == \/ \E h \in Hosts(scn) : \/ DRecv(h) \/ TRecvD(h)
                                  \/ \E k \in Execs(scn) : TRecvE(h, k) \/ ERecv(h, k) \/ EWakeup(h, k) \/ PoolRun(h, k)
         \/ DRecvStartBenchmark \/ RcRecv \/ Race
 
-(* fairness per kind of step w.r.t. the real state (view); a wake-up that finds the task still running only re-arms itself: *)
-(* it is no progress and deliberately not among the fair actions                                                            *)
-Fairness == /\ \A h \in 1..2 : /\ SF_view(h \in Hosts(scn) /\ DRecv(h))
-                               /\ SF_view(h \in Hosts(scn) /\ TRecvD(h))
-                               /\ \A k \in 1..2 : /\ SF_view(h \in Hosts(scn) /\ k \in Execs(scn) /\ TRecvE(h, k))
-                                                  /\ SF_view(h \in Hosts(scn) /\ k \in Execs(scn) /\ ERecv(h, k))
+(* fairness per kind of step w.r.t. the real state (view).  Weak fairness is enough for message receipt here: a handler    *)
+(* is one action, and a receipt that is enabled stays enabled until it is taken (only the receiver consumes the head of    *)
+(* its channels, an actor exits only by its own step) - strong fairness would be equivalent and costs TLC minutes.         *)
+(* A wake-up that finds the task still running only re-arms itself: it is no progress and deliberately not fair.          *)
+Fairness == /\ \A h \in 1..2 : /\ WF_view(h \in Hosts(scn) /\ DRecv(h))
+                               /\ WF_view(h \in Hosts(scn) /\ TRecvD(h))
+                               /\ \A k \in 1..2 : /\ WF_view(h \in Hosts(scn) /\ k \in Execs(scn) /\ TRecvE(h, k))
+                                                  /\ WF_view(h \in Hosts(scn) /\ k \in Execs(scn) /\ ERecv(h, k))
                                                   /\ WF_view(h \in Hosts(scn) /\ k \in Execs(scn) /\ ex[h][k].fut \in {"done", "failed"} /\ EWakeup(h, k))
                                                   /\ WF_view(h \in Hosts(scn) /\ k \in Execs(scn) /\ PoolRun(h, k))
-            /\ SF_view(DRecvStartBenchmark) /\ SF_view(RcRecv) /\ WF_view(Race)
+            /\ WF_view(DRecvStartBenchmark) /\ WF_view(RcRecv) /\ WF_view(Race)
 
 Spec == Init /\ [][Next]_vars
 FairSpec == Spec /\ Fairness
